@@ -1,15 +1,15 @@
 SPECIFICATION MCSpec
 CONSTANTS
-  Colls = {"P", "R"}
-  Actors = {w1, w2, rep}
+  Colls = {"P", "S"}
+  Actors = {w1, w2, sn, rs, rep}
   Writers = {w1, w2}
-  Snap = "none"
-  Rst = "none"
+  Snap = sn
+  Rst = rs
   Rep = rep
   Offsets = {0, 1, 2}
   BlockSize = 2
   Known = @KNOWN@
-  History = FALSE
+  History = TRUE
   Guard = @GUARD@
   Schema <- SchemaInt
   IdxDefs <- IdxInt
@@ -18,7 +18,7 @@ CONSTANTS
   MaxOps = @MAXOPS@
   LiveChoices <- @LAYOUTS@
   HasMode = "all"
-  Replica = TRUE
+  Replica = FALSE
   Transport = "@TRANSPORT@"
   AllowFail = @FAIL@
   AllowRollback = @ROLLBACK@
@@ -28,5 +28,5 @@ CONSTANTS
   LateInitSel = TRUE
   ReplayAtEnd = @ATEND@
 SYMMETRY WriterSymmetry
-INVARIANTS FillAccounting ReadBack IndexCoherent NoCollision OccupiedIsLive NoStaleValues StreamIds Converged
+INVARIANTS ConsistentCut FillAccounting ReadBack IndexCoherent NoCollision OccupiedIsLive NoStaleValues StreamIds Converged
 PROPERTIES RollbackNoTrace
